@@ -125,6 +125,91 @@ func returnsOf(path string) (map[string]string, error) {
 	return out, nil
 }
 
+// nondetSites lists, per function of the state-machine packages, every reference to a source of
+// values that differ between nodes or executions: the host clock, random numbers, the process
+// environment. (C20: time comes from the block header only.)
+func nondetSites(repo string) ([]string, error) {
+	var out []string
+	root := filepath.Join(repo, "modules", "tibc")
+	err := filepath.Walk(root, func(path string, info os.FileInfo, err error) error {
+		if err != nil {
+			return err
+		}
+		rel, _ := filepath.Rel(repo, path)
+		if info.IsDir() {
+			switch info.Name() {
+			case "testing", "simulation", "cli", "client", "mock":
+				if rel != filepath.Join("modules", "tibc", "core", "02-client") {
+					return filepath.SkipDir
+				}
+			}
+			return nil
+		}
+		if !strings.HasSuffix(path, ".go") || strings.HasSuffix(path, "_test.go") || strings.HasSuffix(path, ".pb.go") || strings.HasSuffix(path, ".pb.gw.go") {
+			return nil
+		}
+		fset := token.NewFileSet()
+		f, perr := parser.ParseFile(fset, path, nil, 0)
+		if perr != nil {
+			return perr
+		}
+		// names under which the packages of interest are imported in this file
+		pk := map[string]string{}
+		for _, im := range f.Imports {
+			ip, _ := strconv.Unquote(im.Path.Value)
+			name := filepath.Base(ip)
+			if im.Name != nil {
+				name = im.Name.Name
+			}
+			switch ip {
+			case "time", "math/rand", "crypto/rand", "os", "math/rand/v2":
+				pk[name] = ip
+			}
+		}
+		seen := map[string]bool{}
+		for _, d := range f.Decls {
+			fd, ok := d.(*ast.FuncDecl)
+			if !ok || fd.Body == nil {
+				continue
+			}
+			ast.Inspect(fd.Body, func(n ast.Node) bool {
+				se, ok := n.(*ast.SelectorExpr)
+				if !ok {
+					return true
+				}
+				id, ok := se.X.(*ast.Ident)
+				if !ok {
+					return true
+				}
+				ip, ok := pk[id.Name]
+				if !ok {
+					return true
+				}
+				bad := false
+				switch ip {
+				case "time":
+					bad = se.Sel.Name == "Now" || se.Sel.Name == "Since" || se.Sel.Name == "Until"
+				case "os":
+					bad = se.Sel.Name == "Getenv" || se.Sel.Name == "Hostname" || se.Sel.Name == "Getpid" || se.Sel.Name == "LookupEnv" || se.Sel.Name == "Environ"
+				default:
+					bad = true
+				}
+				if bad {
+					k := fmt.Sprintf("%s:%s:%s.%s", rel, fd.Name.Name, ip, se.Sel.Name)
+					if !seen[k] {
+						seen[k] = true
+						out = append(out, k)
+					}
+				}
+				return true
+			})
+		}
+		return nil
+	})
+	sort.Strings(out)
+	return out, err
+}
+
 func main() {
 	repo := flag.String("repo", "/repo", "repository root")
 	out := flag.String("out", "", "output Lean file")
@@ -216,6 +301,17 @@ func main() {
 		}
 		lines = append(lines, fmt.Sprintf("def hostShape_%s : String := %q", nm, r))
 	}
+	// sources of node-dependent values inside the state-machine packages
+	sites, err := nondetSites(*repo)
+	if err != nil {
+		fail("%v", err)
+	}
+	var qs []string
+	for _, x := range sites {
+		qs = append(qs, strconv.Quote(x))
+	}
+	lines = append(lines, "/-- every reference to the host clock, a random source or the process environment in the state-machine packages (file:function:what) -/",
+		"def nondetSites : List String := ["+strings.Join(qs, ",\n  ")+"]")
 	// transfer applications
 	env, f = load("modules/tibc/apps/nft_transfer/keeper/relay.go")
 	want(env, f, "CLASSPREFIX", "nftClassPrefix")
